@@ -116,6 +116,18 @@ def run_case(case, infos):
             for k in range(rng.randrange(1, 8)):
                 attr, f = rng.choice([x for x in funcs if x[1].name != "VERSION"])
                 s.dev.emit_at(t + rng.randrange(0, 3_000_000), f"@{cid}:{f.name}={AS.valid_value(rng, f)}\r\n".encode("utf-8"))
+        # unsolicited reports that keep coming at a steady pace for longer than any time-out (someone turning the
+        # volume knob, a track playing): drawn from a generator of its own
+        trng = random.Random(case["seed"] ^ 0x7AFF1C)
+        if trng.random() < 0.3 and not case.get("no_traffic"):
+            period = trng.choice([300_000, 900_000, 1_900_000])
+            case["steady_traffic_period_us"] = period
+            t = s.sim.now + trng.randrange(0, period)
+            others = [x for x in funcs if x[1].name != "VERSION"]
+            while t < s.sim.now + 45_000_000 and others:
+                attr, f = trng.choice(others)
+                s.dev.emit_at(t, f"@{cid}:{f.name}={AS.valid_value(trng, f)}\r\n".encode("utf-8"))
+                t += period
         s.call(inst.initialize)
         s.cache_at_return = [(n, canon_value(h.value)) for n, h in inst.function_handlers.items()]
         s.sleep(1.0)
@@ -204,6 +216,16 @@ def monitor(s, case, infos, rx):
         if not isinstance(s.exc, ynca.YncaInitializationFailedException):
             return f"initialize() raised {type(s.exc).__name__}: {s.exc}"
         dur = s.t_end - s.t_start
+        if case.get("steady_traffic_period_us") and reply_line_idx is None:
+            # "a bound proportional to the number of queries": how long the failing call takes is settled by the queries
+            # it sent, not by what else the device happens to be sending (needs no constant of the code)
+            quiet = dict(case, no_traffic=True)
+            quiet.pop("steady_traffic_period_us", None)
+            s2, _ = run_case(quiet, infos)
+            if s2.sim.failure is None and s2.exc is not None and hasattr(s2, "t_end"):
+                dur2 = s2.t_end - s2.t_start
+                if dur2 != dur:
+                    return f"with no reply to the synchronisation query, initialize() failed after {dur} us while the device kept sending unrelated reports every {case['steady_traffic_period_us']} us, and after {dur2} us with the same {n} queries and a quiet device: the bound depends on the traffic, not on the number of queries"
         if gp.get("p_init_base", 0) <= 0 or gp.get("p_init_per_cmd", 0) <= 0:
             return None  # the translator could not read the time-out expression (reported as a broken obligation): nothing to compare with
         if reply_line_idx is not None and ev[reply_line_idx]["t"] < s.t_start + timeout_us - 1000:
@@ -239,7 +261,7 @@ def run(chk: Check):
     if not any(b["obligation"].startswith(("translator", "compile")) for b in chk.broken):
         firsts = {}
         for case, s in sessions:
-            if not case.get("deleted") and case["class"] not in firsts:
+            if not case.get("deleted") and case["class"] not in firsts and s.sim.failure is None and hasattr(s, "i_end"):
                 firsts[case["class"]] = (case, s)
         items = [(cid, [e["item"] for e in s.sim.events[s.i_start : s.i_end] if e["k"] == "Enq" and e.get("marker") is None]) for (case, s), (cls, cid, funcs) in ((x, infos[x[0]["class"]]) for x in firsts.values())]
         lines = [coqio.CASES_HEADER, "From Ynca Require Import Model.Line Model.Api Gen.Enums Gen.Functions Gen.Params.\n"]
